@@ -74,6 +74,10 @@ Definition n_type_strict (c : cfg) : bool :=
   | Some (_, s) => s
   | None => false
   end.
+(* the e_type names the translator enumerated when it built gen_n_type_table_of_etype (every
+   name of ENUM_E_TYPE, "<raw>" for an unnamed value, "<none>"): the domain of n_type_table *)
+Definition wf_cfg (c : cfg) : bool :=
+  existsb (String.eqb (c_etype c)) (map fst gen_n_type_table_of_etype).
 Definition Elf_Nhdr (c : cfg) : layout := gen_Elf_Nhdr (c_le c) (c_is64 c).
 Definition sizeof (L : layout) : Z :=
   match layout_size L with Some n => Z.of_nat n | None => 0 end.
@@ -225,7 +229,7 @@ Definition name_is (name : option (list Z)) (s : list Z) : bool :=
 Definition STR_GNU : list Z := [71; 78; 85].
 
 (* the if / elif chain on n_type and n_name, in source order *)
-Definition dispatch (t : enum_val) (name : option (list Z)) : kind :=
+Definition desc_dispatch (t : enum_val) (name : option (list Z)) : kind :=
   if is_name t "NT_GNU_ABI_TAG" && name_is name STR_GNU then KAbi
   else if is_name t "NT_GNU_BUILD_ID" && name_is name STR_GNU then KBuildId
   else if is_name t "NT_GNU_GOLD_VERSION" && name_is name STR_GNU then KGold
@@ -273,7 +277,7 @@ Definition one_note (c : cfg) (img : list Z) (offset : Z) : res (onote * Z) :=
   do nm <- read_name img offset1 namesz;
   let '(name, offset2) := nm in
   let desc_data := read_at img offset2 descsz in          (* elffile.stream.read(n_descsz) *)
-  do dv <- decode_desc c img (dispatch t name) offset2 descsz desc_data;
+  do dv <- decode_desc c img (desc_dispatch t name) offset2 descsz desc_data;
   let offset3 := offset2 + roundup descsz 2 in
   Ok ({| o_namesz := namesz; o_descsz := descsz; o_type := t; o_offset := offset;
          o_name := name; o_descdata := desc_data; o_desc := dv;
